@@ -36,6 +36,16 @@ part I  (bounded/c15_hist.py) multi-step histories on an INSTANCE that never set
         own per-instance Parameter object (inst.param[name], inst.param.<name>, serialize_value, ...), the
         class-level value changes (P.x = new, P.param.update, ...), then the instance is serialised (with and
         without subset=, serialize_value): the text must carry the value the instance actually shows;
+part J  (bounded/c15_seq.py) TEXT that looks like JSON -- a grid prefix x token x suffix over the JSON literals,
+        NaN / Infinity / -Infinity, number-looking text, brackets, braces, quotes, commas, colons, backslashes and
+        spelled-out escape sequences -- in every text-carrying position (String, instance name, List / Dict /
+        Tuple items at two depths, Dict keys, Selector / ListSelector values over a list and over a dict of objects)
+        x level x api: any text is a valid state and must come back verbatim;
+part K  (bounded/c15_seq.py) SEQUENCES of serialize / deserialize calls in one process over two objects of one class,
+        a class sharing parameter names with it, a subclass, class and instance level, subset= variations (partial
+        payloads, subset on one side, empty), both apis, three orders of the calls: the kept result object of every
+        call is compared with a reference model after every later call (results are independent of other calls);
+        every history runs in a forked copy of a clean process and is shrunk to the shortest failing sub-history;
 part D  (thorough; a seed-chosen slice in quick) pseudo-random floats, ints, strings, datetimes,
         dates and date ranges -- this also tests the assumed codecs (json float repr,
         strftime/strptime for the two literal formats).
@@ -62,6 +72,7 @@ import sys
 from bounded._api import Bounded, REPLAY_HEADER
 from bounded import c15_ext
 from bounded import c15_hist
+from bounded import c15_seq
 
 # --------------------------------------------------------------------------------------------
 # The checking core.  It is kept as source text: the layer exec()s it and every replay script
@@ -562,6 +573,10 @@ def _run(tier, seed):
                "(2 modes) over every container-valued lattice state + pseudo-random nested JSON x 5 level/default "
                "combinations x 2 apis + subset pairs; 22 same-text parameters of different types x 44 orders x 3 "
                "levels; "
+               "JSON-looking text (prefix x token x suffix grid: 691 strings quick / 3306 thorough) x 14 text-carrying "
+               "positions x 3 levels x 2 apis; call sequences: ordered pairs (+ seeded triples) of a 50-step (quick) / "
+               "80-step (thorough) pool {6 sources x 6 subset variants x namespace, value api} x 3 call orders, every "
+               "kept result re-checked after every later call; "
                "pseudo-random values per type: %s") % ("1500 each (all)" if tier == "thorough"
                                                             else "a seed-chosen slice of 40 of 1500 each"))
     reported = {}      # (clause, type, vclass, kind) -> canonical witness
@@ -801,6 +816,10 @@ def _run(tier, seed):
 
     # ---------------------------------------------------------------- part I (bounded/c15_hist.py)
     c15_hist.run_hist(B, tier, seed, sys.modules[__name__])
+
+    # ---------------------------------------------------------------- parts J, K (bounded/c15_seq.py)
+    c15_seq.run_text(B, tier, seed, sys.modules[__name__])
+    c15_seq.run_seq(B, tier, seed, sys.modules[__name__])
 
     # notes are de-duplicated
     B.notes = sorted(set(B.notes))
